@@ -207,3 +207,61 @@ def _(self, start, stop):
     ensures(implies(stop > start, forall(lambda i: implies(0 <= i and i < len(self._repeated.items) and (i < start or i >= stop),
                                                           old(self._repeated.items[i].g_last.g_pos) < self.g_da or old(self._repeated.items[i].g_first.g_pos) > self.g_db), self._repeated.items[i])))
     ensures(implies(stop > start, old(self._repeated.g_ph.g_pos) < self.g_da))
+
+# ---- _insert_tokens (default arguments: the item list describes the store): a pure insertion at one place, next to the neighbouring item
+# STATUS: written but NOT a target of any unit - 379 of 389 obligations discharge, the distinctness of the accumulated token list over the three branches and one
+# `ref` invariant do not (solver timeouts); nothing is claimed from it and no verified function calls it through this contract.
+@macro
+def Donor(v, dest):      # a node that may be adopted: a free token, or the root of a non-empty store of its own
+    return (v != None and implies(v.g_ts != None, AbsInv(v.g_ts) and v.g_ts.g_vlen >= 1)
+        and implies(v.g_ts is None, as_ref(v, 'RawTokenModel').g_store is None))
+
+@contract('RepeatedNodeWrapper._separators')
+def _(self):
+    modifies()
+    ensures(result is self._field.separators)
+
+@contract('RepeatedNodeWrapper._separators_before')
+def _(self):
+    modifies()
+    ensures(result is ite(self._field.separators_before != None, self._field.separators_before, self._field.separators))
+
+@contract('RepeatedNodeWrapper._insert_tokens')
+def _(self, index, values, length, separators_before_last):
+    types(values='list[RawModel]', length='int', tokens='list[RawTokenModel]')
+    requires(self != None and RepInv(self._repeated) and 0 <= index and index <= len(self._repeated.items) and length == len(self._repeated.items) and separators_before_last is None)
+    requires(self._field != None and self._field.separators != None and values != None and values is not self._repeated.items)
+    requires(forall(lambda k: implies(0 <= k and k < len(values), Donor(values[k], self._repeated.g_ts)), values[k]))
+    requires(forall(lambda j, k: implies(0 <= j and j < k and k < len(values), values[j] != values[k] and (values[j].g_ts is None or values[j].g_ts is not values[k].g_ts))))
+    modifies('TokenStore.g_view', 'TokenStore.g_vlen', 'RawTokenModel.g_store', 'RawTokenModel.g_pos', 'list[RawTokenModel]@fresh', 'RepeatedNodeWrapper.g_ia@self')
+    raises('ValueError')
+    ghost('g_ia', ite(index > 0, old(self._repeated.items[index - 1].g_last.g_pos) + 1,
+              ite(len(self._repeated.items) > 0 and len(values) > 0, old(as_ref(sel(elems(self._repeated.items), 0), 'RawModel').g_first.g_pos), old(self._repeated.g_ph.g_pos) + 1)))
+    # bookkeeping for distinctness: g_kind[j] = 1 if tokens[j] came out of a donor (g_src[j] = which one), 0 if it is a copy of a separator
+    after_stmt('tokens: list[base.RawTokenModel] = []', 'letarr', 'g_kind', lambda j: 0)
+    after_stmt('tokens: list[base.RawTokenModel] = []', 'letarr', 'g_src', lambda j: 0)
+    after_call('RawModel.detach', 'g_det')
+    after_stmt('tokens.extend(value.detach())', 'letarr', 'g_kind', lambda j: ite(j >= len(tokens) - len(as_list(g_det, 'RawTokenModel')), 1, sel(g_kind, j)))
+    after_stmt('tokens.extend(value.detach())', 'letarr', 'g_src', lambda j: ite(j >= len(tokens) - len(as_list(g_det, 'RawTokenModel')), K, sel(g_src, j)))
+    after_stmt('tokens.extend(copy.deepcopy(self._separators))', 'letarr', 'g_kind', lambda j: ite(j >= len(tokens) - len(self._field.separators), 0, sel(g_kind, j)))
+    after_stmt('tokens.extend(copy.deepcopy(self._separators_before))', 'letarr', 'g_kind', lambda j: ite(j >= len(tokens) - len(ite(self._field.separators_before != None, self._field.separators_before, self._field.separators)), 0, sel(g_kind, j)))
+    invariant(0, forall(lambda j: implies(0 <= j and j < len(tokens), ite(sel(g_kind, j) == 0, fresh(tokens[j]),
+                            not fresh(tokens[j]) and 0 <= sel(g_src, j) and sel(g_src, j) < K and ite(old(values[sel(g_src, j)].g_ts) != None,
+                                old(tokens[j].g_store) is old(values[sel(g_src, j)].g_ts), tokens[j] is values[sel(g_src, j)]))), tokens[j]))
+    invariant(0, tokens is pre(tokens) and fresh(tokens) and length == pre(length) and self._repeated.g_ts is old(self._repeated.g_ts)
+                 and self._repeated.g_ts.g_view == old(self._repeated.g_ts.g_view) and self._repeated.g_ts.g_vlen == old(self._repeated.g_ts.g_vlen) and RepInv(self._repeated)
+                 and self._repeated.items is old(self._repeated.items) and len(self._repeated.items) == old(len(self._repeated.items)),
+                 forall(lambda t: implies(old(as_ref(t, 'RawTokenModel').g_store) is old(self._repeated.g_ts), as_ref(t, 'RawTokenModel').g_store is old(as_ref(t, 'RawTokenModel').g_store) and as_ref(t, 'RawTokenModel').g_pos == old(as_ref(t, 'RawTokenModel').g_pos))),
+                 forall(lambda k: implies(0 <= k and k < len(tokens), tokens[k] != None and allocated(tokens[k]) and tokens[k].g_store is None), tokens[k]),
+                 forall(lambda j, k: implies(0 <= j and j < k and k < len(tokens), tokens[j] != tokens[k])),
+                 # donors not yet consumed are as they were
+                 forall(lambda k: implies(K <= k and k < len(values), Donor(values[k], self._repeated.g_ts) and values[k].g_ts is old(values[k].g_ts)
+                        and implies(values[k].g_ts != None, values[k].g_ts.g_view == old(values[k].g_ts.g_view) and values[k].g_ts.g_vlen == old(values[k].g_ts.g_vlen))), values[k]),
+                 ref is ite(index > 0, self._repeated.items[index - 1].g_last, ite(len(self._repeated.items) > 0 and K > 0, as_ref(sel(self._repeated.g_ts.g_view, self._repeated.items[0].g_first.g_pos - 1), 'RawTokenModel'), self._repeated.g_ph)))
+    # a pure insertion at g_ia: nothing removed, nothing before it moved, everything behind it shifted by the number of inserted tokens
+    ensures(self._repeated.g_ts.g_vlen >= old(self._repeated.g_ts.g_vlen) and AbsInv(self._repeated.g_ts))
+    ensures(forall(lambda k: implies(0 <= k and k < self.g_ia, sel(self._repeated.g_ts.g_view, k) == sel(old(self._repeated.g_ts.g_view), k))))
+    ensures(forall(lambda k: implies(self.g_ia <= k and k < old(self._repeated.g_ts.g_vlen), sel(self._repeated.g_ts.g_view, k + (self._repeated.g_ts.g_vlen - old(self._repeated.g_ts.g_vlen))) == sel(old(self._repeated.g_ts.g_view), k))))
+    # ... right behind the previous item (or the placeholder), or right in front of the first item
+    ensures(old(self._repeated.g_ph.g_pos) < self.g_ia and forall(lambda i: implies(0 <= i and i < len(self._repeated.items),
+                ite(i < index, old(self._repeated.items[i].g_last.g_pos) < self.g_ia, self.g_ia <= old(self._repeated.items[i].g_first.g_pos))), self._repeated.items[i]))
